@@ -81,7 +81,7 @@ def main():
         expect(run('Trace_Subst', 'c11-trace', c), 'result', 'subst: recorded result replaced by a subterm', results)
     cs = load('c13-trace')
     if cs:
-        j = first(cs, lambda x: x['fam'] == 'match' and x['found'] and x['sigma'])
+        j = first(cs, lambda x: x['fam'] == 'match' and x['found'] and x['sigma'] and not x['seed'])
         c = copy.deepcopy(cs[j:j + 1]); c[0]['sigma'][0][1] = pi2v.SYM(9)
         expect(run('Trace_PyOps', 'c13-trace', c), 'unsound', 'match: one binding of the recorded substitution changed', results)
     cs = load('c04-replay', 'traces.ndjson', 200)
